@@ -87,7 +87,7 @@ func (g *fgen) text() string {
 var yamlDocs = []string{
 	"a: 1\n", "a: 1", "a: 1\nb:\n  - x\n  - y\n", "# comment\nkey: value # trailing\n", "---\na: 1\n---\nb: 2\n",
 	"text: |\n  line\n  ---\n  more\n", "[TestY - 1]\n", "- 1\n- 2\n\n\n", "z: 1\ny: 2\nx: 3\n", "/-/-/-/\n", "s: \"quoted\"\n\n",
-	"a:\n  b:\n    c: [1, 2, 3]\n", "k: v\n...\n", "? complex\n: value\n", "a: 2\n", "b: 1\n", "list:\n- a\n- b\n",
+	"a:\n  b:\n    c: [1, 2, 3]\n", "a: 1\n---\n---\nb: 2\n", "---\n---\na: 1\n", "x\n---\n---\n---\n", "k: v\n...\n", "? complex\n: value\n", "a: 2\n", "b: 1\n", "list:\n- a\n- b\n",
 }
 
 var jsonDocs = []string{
@@ -109,7 +109,7 @@ type callSpec struct {
 }
 
 var invalidJSON = []string{`{"a":`, `{'a':1}`, ``, `[1,]`, `nope`, `{"a":1}}`, `{"a" 1}`, " ", `{"b":1,"a":2}{"c":3}`, `[1,2]]`, `{"a":1},`, "{\"a\":1}\n{\"a\":2}", `{"a":01}`, `{"a":1,}`, `"unterminated`}
-var invalidYAML = []string{"a: [1, 2", "a:\n\t- b", "\"unterminated", "{a: 1", "a: b: c"}
+var invalidYAML = []string{"a: [1, 2", "a:\n\t- b", "\"unterminated", "{a: 1", "a: b: c", "defaults: *base\nname: svc\n", "a: &x 1\n---\nb: *y\n", "a: &x 1\nb: *y\n"}
 
 func (g *fgen) call(apis []string, cfgs []string) *callSpec {
 	api := apis[g.r.Intn(len(apis))]
